@@ -78,7 +78,8 @@ PROPS = {
                 explanation="_write_if_changed (no write effect when unchanged) proved over the file-system effect model; "
                             "touch decision, idempotence and the crash clause bounded"),
     "C13": Prop(["contracts.kschema", "contracts.c_files"],
-                [f"{K}:Kconfig._contents_eq", f"{K}:Kconfig._write_if_changed", f"{K}:_save_old", f"{K}:Kconfig.write_config"],
+                [f"{K}:Kconfig._contents_eq", f"{K}:Kconfig._write_if_changed", f"{K}:_save_old", f"{K}:Kconfig.write_config",
+                 "kconfgen.core:update_if_changed"],
                 ["drv_outputs"], level="other",
                 explanation="over the file-system effect model (pyvc/effects.py): _contents_eq is exact, _write_if_changed and "
                             "write_config perform no write effect when the destination already holds the text, and the effects "
